@@ -10,7 +10,7 @@ import (
 )
 
 func init() {
-	Explanations["C13"] = "Decides structural necessary conditions of 'rebasing a v2 set yields proofs valid at the target, never panics, and leaves the caller's input alone' in the Manager's rebasing method (identified by its signature ([]V2Transaction, ChainIndex, ChainIndex)): (R1) the reorg-path computation and every proof update are reached only after the basis state was found and ValidateTransactionElements succeeded for every transaction of the set (loop-guard rule); (R2) no write and no pointer handed to the proof updater reaches memory derived from the parameter — only values that passed DeepCopy are modified; (R3) every dereference of a block supplement obtained from the store in Manager methods is dominated by a non-nil test or a fresh allocation, so a pruned or unvalidated block yields an error, not a panic; (R4) outside the tip walker the reorg-path bound is a finite integer constant; (R5) the exported set-assembly methods (those using the output→transaction parent map) revalidate the pool before reading it, so confirmed transactions are never offered as unconfirmed parents; (R6) the proof updater compares an element's leaf index with the accumulator size only after excluding the ephemeral sentinel, so inputs created earlier in the same set survive a rebase; (R7) the output→position maps used for parent discovery are built per transaction kind and used only on their own list, so a lookup cannot return an unrelated transaction or panic (same check as C14.R5). The pool-side parts of 'assembling a broadcastable set' are decided under C05.R1 and C14.R3. (R8) a range loop over a list that its body appends to (the parent worklist of the set assembly, closures expanded) is enclosed in a loop whose exit tests the list's length, so ancestors of every depth are found. NOT decided: equality of the resulting proofs with the ledger's, parent ordering."
+	Explanations["C13"] = "Decides structural necessary conditions of 'rebasing a v2 set yields proofs valid at the target, never panics, and leaves the caller's input alone' in the Manager's rebasing method (identified by its signature ([]V2Transaction, ChainIndex, ChainIndex)): (R1) the reorg-path computation and every proof update are reached only after the basis state was found and ValidateTransactionElements succeeded for every transaction of the set (loop-guard rule); (R2) no write and no pointer handed to the proof updater reaches memory derived from the parameter — only values that passed DeepCopy are modified; (R3) every dereference of a block supplement obtained from the store in Manager methods is dominated by a non-nil test or a fresh allocation, so a pruned or unvalidated block yields an error, not a panic; (R4) outside the tip walker the reorg-path bound is a finite integer constant; (R5) the exported set-assembly methods (those using the output→transaction parent map) revalidate the pool before reading it, so confirmed transactions are never offered as unconfirmed parents; (R6) the proof updater compares an element's leaf index with the accumulator size only after excluding the ephemeral sentinel, so inputs created earlier in the same set survive a rebase; (R7) the output→position maps used for parent discovery are built per transaction kind and used only on their own list, so a lookup cannot return an unrelated transaction or panic (same check as C14.R5). The pool-side parts of 'assembling a broadcastable set' are decided under C05.R1 and C14.R3. (R8) a range loop over a list that its body appends to (the parent worklist of the set assembly, closures expanded) is enclosed in a loop whose exit tests the list's length, so ancestors of every depth are found. (R9) inside the reorg-path method (helpers and closures expanded) the bound parameter is compared, in one comparison, with a quantity formed from the lengths of both the revert list and the apply list, so the supported distance limits the whole path and not each direction separately. (R10) in package chain every id derived from a transaction by position (SiacoinOutputID, SiafundOutputID, SiafundClaimOutputID, FileContractID, V2FileContractID, Ephemeral*Output) takes its position from a range over the list of that same transaction the id belongs to (outputs for output ids, siafund inputs for claim ids, contracts for contract ids): the parent map then knows every element a pooled transaction creates. NOT decided: equality of the resulting proofs with the ledger's, parent ordering."
 
 	register(&Rule{ID: "C13.R1", Prop: "C13", Floor: 3, Doc: "validate-before-update: proofs are checked against the basis before any update", Run: c13r1})
 	register(&Rule{ID: "C13.R2", Prop: "C13", Floor: 1, Doc: "caller's memory untouched: only deep copies are modified", Run: c13r2})
@@ -19,6 +19,8 @@ func init() {
 	register(&Rule{ID: "C13.R7", Prop: "C13", Floor: 3, Doc: "parent discovery uses a position map of the right transaction kind (same check as C14.R5)", Run: positionMapsKindSafe})
 	register(&Rule{ID: "C13.R8", Prop: "C13", Floor: 1, Doc: "ancestor discovery iterates its growing worklist to a fixpoint", Run: c13r8})
 	register(&Rule{ID: "C13.R6", Prop: "C13", Floor: 1, Doc: "the proof updater skips ephemeral elements before range-checking leaf indices", Run: ephemeralSkipped})
+	register(&Rule{ID: "C13.R9", Prop: "C13", Floor: 1, Doc: "the reorg-path bound limits the whole path: one comparison of the bound with the lengths of both the revert and the apply list", Run: c13r9})
+	register(&Rule{ID: "C13.R10", Prop: "C13", Floor: 8, Doc: "ids derived from a transaction by position (output, claim, contract ids) use positions of the list they belong to", Run: func(c *Ctx) { derivedIDDomains(c, "chain") }})
 	register(&Rule{ID: "C13.R5", Prop: "C13", Floor: 2, Doc: "set assembly discovers parents in a revalidated pool", Run: func(c *Ctx) {
 		// the parent-discovery helper: unexported Manager method returning a map keyed by Hash256
 		var pm *types.Func
@@ -576,6 +578,160 @@ func simpleLvalue(e ast.Expr) bool {
 			e = t.X
 		default:
 			return false
+		}
+	}
+}
+
+// c13r9: the path bound limits revert + apply together.
+func c13r9(c *Ctx) {
+	r := getChainRoles(c.P)
+	f := r.view(reorgPathFn(c))
+	g := f.Graph()
+	c.VisitGraph(f)
+	ob := c.Ob(f, "bound-on-whole-path", f.Body.Pos())
+	var bound types.Object
+	for _, fld := range f.Type.Params.List {
+		if b, ok := f.Info().TypeOf(fld.Type).Underlying().(*types.Basic); ok && b.Kind() == types.Int {
+			for _, nm := range fld.Names {
+				bound = f.Info().Defs[nm]
+			}
+		}
+	}
+	if bound == nil {
+		ob.Unknown("the reorg-path method has no integer bound parameter")
+		return
+	}
+	// the two lists: the []ChainIndex variables appended to
+	lists := map[types.Object]bool{}
+	for _, w := range f.WritesIn(f.Body, true) {
+		if w.RHS == nil {
+			continue
+		}
+		if sl, ok := f.TypeOf(w.LHS).(*types.Slice); ok && ir.IsNamed(sl.Elem(), ir.PkgPath("types"), "ChainIndex") {
+			if ac, ok := ast.Unparen(w.RHS).(*ast.CallExpr); ok {
+				if id, ok := ac.Fun.(*ast.Ident); ok && id.Name == "append" {
+					if o := f.ObjOf(w.LHS); o != nil {
+						lists[c.P.OrigObj(o)] = true
+					}
+				}
+			}
+		}
+	}
+	if len(lists) != 2 {
+		ob.Unknown("expected two chain-index lists (revert, apply) built by the reorg-path method, found %d", len(lists))
+		return
+	}
+	tested, whole := false, false
+	for _, fn := range append([]*ir.Func{f}, f.Lits...) {
+		for _, n := range fn.Graph().Nodes {
+			if n.AST == nil || n.Block == nil || n.Block.Cond != n.AST {
+				continue
+			}
+			be, ok := ast.Unparen(n.AST.(ast.Expr)).(*ast.BinaryExpr)
+			if !ok {
+				continue
+			}
+			var other ast.Expr
+			switch {
+			case c.P.OrigObj(fn.ObjOf(be.X)) == bound:
+				other = be.Y
+			case c.P.OrigObj(fn.ObjOf(be.Y)) == bound:
+				other = be.X
+			default:
+				continue
+			}
+			switch be.Op {
+			case token.GTR, token.GEQ, token.LSS, token.LEQ:
+			default:
+				continue
+			}
+			tested = true
+			seen := map[types.Object]bool{}
+			for _, sub := range expandCond(fn, other) {
+				if e, ok := sub.(ast.Expr); ok {
+					if lx := lenOf(fn, e); lx != nil {
+						if o := fn.ObjOf(lx); o != nil && lists[c.P.OrigObj(o)] {
+							seen[c.P.OrigObj(o)] = true
+						}
+					}
+				}
+			}
+			if len(seen) == 2 {
+				whole = true
+			}
+		}
+	}
+	_ = g
+	switch {
+	case !tested:
+		ob.Bad(nil, "the reorg-path method never compares its bound with the path built so far: an unknown or distant basis walks the whole chain under the manager lock")
+	case !whole:
+		ob.Bad(nil, "the reorg-path bound is compared with the revert list and the apply list separately (or with one of them only): a rebase across two branches that are each within the supported distance but together beyond it is accepted")
+	default:
+		ob.OK("one comparison bounds len(revert)+len(apply)")
+	}
+}
+
+// derivedIDDomains: in package pkg, a position handed to a method that derives
+// an element id from a transaction and a position comes from a range over the
+// list of that same transaction the id belongs to.
+func derivedIDDomains(c *Ctx, pkg string) {
+	domain := map[string]string{
+		"SiacoinOutputID":        "SiacoinOutputs",
+		"EphemeralSiacoinOutput": "SiacoinOutputs",
+		"SiafundOutputID":        "SiafundOutputs",
+		"EphemeralSiafundOutput": "SiafundOutputs",
+		"SiafundClaimOutputID":   "SiafundInputs",
+		"FileContractID":         "FileContracts",
+		"V2FileContractID":       "FileContracts",
+	}
+	for _, f := range c.P.PkgFuncs(pkg) {
+		for _, fn := range append([]*ir.Func{f}, f.Lits...) {
+			visited := false
+			for _, call := range fn.Calls(false) {
+				if call.Fn == nil || call.Fn.Pkg() == nil || call.Fn.Pkg().Path() != ir.PkgPath("types") {
+					continue
+				}
+				want, ok := domain[call.Fn.Name()]
+				if !ok || call.Recv() == nil || len(call.Expr.Args) == 0 {
+					continue
+				}
+				rn := recvNamed(call.Fn)
+				if rn == nil || (rn.Obj().Name() != "Transaction" && rn.Obj().Name() != "V2Transaction") {
+					continue
+				}
+				idx := call.Expr.Args[len(call.Expr.Args)-1]
+				iobj := fn.ObjOf(idx)
+				if iobj == nil {
+					continue // a constant or a computed position: not a loop position
+				}
+				// the range statement whose key is the position
+				var rs *ast.RangeStmt
+				ir.Walk(fn.Top().Body, true, func(x ast.Node) {
+					if r, ok := x.(*ast.RangeStmt); ok && r.Key != nil && fn.ObjOf(r.Key) == iobj {
+						rs = r
+					}
+				})
+				if rs == nil {
+					continue
+				}
+				if !visited {
+					c.VisitGraph(fn)
+					visited = true
+				}
+				ob := c.Ob(fn, "position-of-own-list:"+call.Fn.Name(), call.Pos())
+				sel, isSel := ast.Unparen(rs.X).(*ast.SelectorExpr)
+				switch {
+				case !isSel:
+					ob.Bad(nil, "%s is given a position of %s, which is not a list of the transaction", call.Fn.Name(), ir.ExprString(rs.X))
+				case !sameLvalue(fn, sel.X, call.Recv()):
+					ob.Bad(nil, "%s of %s is given a position of %s: a list of another value", call.Fn.Name(), ir.ExprString(call.Recv()), ir.ExprString(rs.X))
+				case sel.Sel.Name != want:
+					ob.Bad(nil, "%s is given positions of %s instead of %s: elements at positions the other list does not have are never derived (e.g. an output created by a pooled transaction is unknown to parent discovery) and positions beyond the right list derive ids of elements that do not exist", call.Fn.Name(), ir.ExprString(rs.X), want)
+				default:
+					ob.OK("positions of %s", want)
+				}
+			}
 		}
 	}
 }
